@@ -152,10 +152,19 @@ func (h *vC11host) NewStream(ctx context.Context, p peer.ID, pids ...protocol.ID
 	return h.stop, nil
 }
 
-type vC11acl struct{ reserve, connect bool }
+type vC11acl struct {
+	reserve, connect bool
+	askedSrc, askedDst peer.ID // what AllowConnect was asked about (the ACL may be directional)
+	askedAddr          ma.Multiaddr
+	asked              int
+}
 
 func (a *vC11acl) AllowReserve(peer.ID, ma.Multiaddr) bool          { return a.reserve }
-func (a *vC11acl) AllowConnect(peer.ID, ma.Multiaddr, peer.ID) bool { return a.connect }
+func (a *vC11acl) AllowConnect(src peer.ID, addr ma.Multiaddr, dst peer.ID) bool {
+	a.asked++
+	a.askedSrc, a.askedAddr, a.askedDst = src, addr, dst
+	return a.connect
+}
 
 type vC11span struct {
 	network.ResourceScopeSpan
@@ -442,6 +451,9 @@ func VerifC11bConnectExits() {
 	vAssert(hasRsvp, "a circuit needs a reservation of the destination")
 	vAssert(!vC11relayed, "no circuit for a source that arrived over a relay")
 	vAssert(r.acl == nil || acl.connect, "no circuit the ACL denies")
+	if r.acl != nil {
+		vAssert(acl.asked == 1 && acl.askedSrc == src && acl.askedDst == dst, "the ACL is asked about exactly this circuit: the requesting source towards the requested destination")
+	}
 	vAssert(c0 < rc.MaxCircuits && c1 < rc.MaxCircuits, "no circuit beyond MaxCircuits for either peer")
 	vAssert(h.noDial, "the relay does not dial the destination")
 	vAssert(r.conns[src] == c0+1 && r.conns[dst] == c1+1, "an open circuit is counted for both peers")
